@@ -281,7 +281,9 @@ package resource_division
 // NOT proved here (needs a sum over the visited queues, which the spec language cannot express):
 // remaining >= 0 ("the surplus handed out never exceeds what is left").
 // (helper "c09b") round share of queue k: the code's `amountToGiveInCurrentRound * (shareWeightsPerQueue[k] / shareWeightsSum)`, and its sum
-//@ define roundShare(m map[common_info.QueueID]float64, k common_info.QueueID, A real, S real) real = max(A * (m[k] / S), 0.0)
+//@ define roundShare(m map[common_info.QueueID]float64, k common_info.QueueID, A real, S real) real = A * (m[k] / S)
+// normalised weights of a round add up to 1 (engine: sums are linear in a factor that does not depend on the key)
+//@ define normSum(V ref, m map[common_info.QueueID]float64, S real) real = sum k in V :: m[k] / S
 //@ define roundShareSum(V ref, m map[common_info.QueueID]float64, A real, S real) real = sum k in V :: roundShare(m, k, A, S)
 // (helper "c09b") unsatisfied siblings that take part in the weighted rounds (over-quota weight != 0), and their number
 //@ define unsatNZ(q *rs.QueueAttributes, r rs.ResourceName) bool = !satisfied(q, r) && weight(q, r) != 0.0
@@ -308,9 +310,10 @@ package resource_division
 //@     invariant remainingRequested != nil && fresh(remainingRequested)
 //@     invariant forall k in visited :: k in queues
 //@     invariant shareWeightsSum > 0.0 && shareWeightsSum == swSum(queues, shareWeightsPerQueue) && forall k common_info.QueueID :: shareWeightsPerQueue[k] >= 0.0
+//@     invariant normSum(queues, shareWeightsPerQueue, shareWeightsSum) == 1.0
+//@     invariant roundShareSum(queues, shareWeightsPerQueue, amountToGiveInCurrentRound, shareWeightsSum) == amountToGiveInCurrentRound
 //@     invariant totalResourceAmount >= 0.0 ==> amountToGiveInCurrentRound >= 0.0
 //@     invariant totalResourceAmount >= 0.0 ==> amountToGiveInCurrentRound - cur(totalResourceAmount) <= roundShareSum(visited, shareWeightsPerQueue, amountToGiveInCurrentRound, shareWeightsSum)
-//@     invariant totalResourceAmount >= 0.0 ==> roundShareSum(visited, shareWeightsPerQueue, amountToGiveInCurrentRound, shareWeightsSum) * shareWeightsSum == amountToGiveInCurrentRound * swSum(visited, shareWeightsPerQueue)
 //@     invariant fairSum(queues, queues, resourceName) + cur(totalResourceAmount) == old(fairSum(queues, queues, resourceName)) + totalResourceAmount
 //@     invariant forall k in queues :: !(k in visited) ==> ((k in shareWeightsPerQueue) == !satisfied(queues[k], resourceName))
 //@     invariant kValue >= 0.0 && usagesNonNeg(queues, resourceName) ==> forall k in queues :: weight(queues[k], resourceName) == 0.0 ==> shareWeightsPerQueue[k] == 0.0
